@@ -1,7 +1,9 @@
 import Vet.Props.C10
 import Vet.Props.Commands
+import Vet.Props.WFCorollaries
 #print axioms Vet.C09_check_then_locked_partial
 #print axioms Vet.C10_chains_preserved
 #print axioms Vet.C10_required_contains_path
 #print axioms Vet.C09_failing_check_writes_nothing
 #print axioms Vet.C09_check_run_partial
+#print axioms Vet.C09_check_run_wf
